@@ -126,6 +126,7 @@ Haves(s, r) ==
 UAll == 1..16
 UMid == {1, 2, 3, 5, 7, 9, 11, 12, 13, 14, 15, 16}
 USmall == {1, 2, 4, 5, 11, 12, 15}
+UDup == {1, 2, 5, 12}
 
 RECURSIVE SumSeq(_, _)
 SumSeq(s, i) == IF i > Len(s) THEN 0 ELSE (s[i] * (7 * i + 1) + SumSeq(s, i + 1)) % 100003
